@@ -1,9 +1,10 @@
 #!/bin/bash
-# tools/seedmatrix.sh — every seeded change against the quick check of its own property
+# tools/seedmatrix.sh [out] — every seeded change against the quick check of its own property
 cd /verif
+OUT="${1:-/tmp/seedmatrix.log}"; : > "$OUT"
 for d in seeded/*/; do
   id=$(basename $d)
   [ -f "$d/patch.diff" ] || continue
   P=$(python3 -c "import json;print(json.load(open('$d/meta.json')).get('property','${id:0:3}'))" 2>/dev/null || echo ${id:0:3})
-  tools/runseed.sh $id $P 2>&1 | tail -1
+  tools/runseed.sh $id $P 2>&1 | tail -1 | tee -a "$OUT"
 done
